@@ -2370,6 +2370,9 @@ class TensorDict(TensorDictBase):
                 # We have already made sure that the tensordict was not named
                 return
 
+        if self._is_locked:
+            # names can be assigned under lock: a lazy stack that holds this tensordict memoises its names
+            self._erase_cache_up()
         # we don't run checks on types for efficiency purposes
         if value is None:
             self._rename_subtds(value)
